@@ -163,26 +163,28 @@ func run(e *hx.Env) *hx.Report {
 		r.Hit("corpus")
 		c.runOps("corpus-"+strings.TrimSuffix(filepath.Base(f), ".ops"), ops)
 	}
-	// 2. generated cases
-	for i := 0; i < e.N(400, 2500); i++ {
+	// 2. generated cases (GXC14_ONLY=pm|m6|sk|kernel restricts the kinds, for debugging)
+	only := os.Getenv("GXC14_ONLY")
+	want := func(k string) bool { return only == "" || only == k }
+	for i := 0; want("pm") && i < e.N(400, 2500); i++ {
 		ops := genPM(c, i)
 		c.runOps(fmt.Sprintf("pm%d", i), ops)
 		if i < 5 {
 			r.Sample(map[string]interface{}{"kind": "pm", "ops": ops})
 		}
 	}
-	if e.Thorough() {
+	if e.Thorough() && want("pm") {
 		for i, ops := range smallScopePM() {
 			c.runOps(fmt.Sprintf("pmx%d", i), ops)
 		}
 	}
-	for i := 0; i < e.N(400, 3000); i++ {
+	for i := 0; want("m6") && i < e.N(400, 3000); i++ {
 		c.runOps(fmt.Sprintf("m6-%d", i), genM6(c, i))
 	}
-	for i := 0; i < e.N(80, 600); i++ {
+	for i := 0; want("sk") && i < e.N(80, 600); i++ {
 		c.runOps(fmt.Sprintf("sk%d", i), genSK(c, i))
 	}
-	if e.Thorough() {
+	if e.Thorough() && want("kernel") {
 		if c.netns == "private" && nf.HaveRealIptables() {
 			for i := 0; i < 400; i++ {
 				c.runOps(fmt.Sprintf("k%d", i), genKernel(c, i))
